@@ -153,9 +153,17 @@ pub enum PendingCompletion {
     /// Rethrow this exception after finally completes
     Throw(Guarded),
     /// Break to target after finally completes
-    Break { target: usize, try_depth: u8 },
+    Break {
+        target: usize,
+        try_depth: u8,
+        scope_depth: u8,
+    },
     /// Continue to target after finally completes
-    Continue { target: usize, try_depth: u8 },
+    Continue {
+        target: usize,
+        try_depth: u8,
+        scope_depth: u8,
+    },
 }
 
 /// A saved trampoline frame for suspension (Clone-able version without Guard)
@@ -2442,10 +2450,18 @@ impl BytecodeVM {
             }
 
             // NOTE: review
-            Op::Break { target, try_depth } => self.execute_break(target as usize, try_depth),
+            Op::Break {
+                target,
+                try_depth,
+                scope_depth,
+            } => self.execute_break(interp, target as usize, try_depth, scope_depth),
 
             // NOTE: review
-            Op::Continue { target, try_depth } => self.execute_continue(target as usize, try_depth),
+            Op::Continue {
+                target,
+                try_depth,
+                scope_depth,
+            } => self.execute_continue(interp, target as usize, try_depth, scope_depth),
 
             // ═══════════════════════════════════════════════════════════════════════════
             // Variable Access
@@ -3224,13 +3240,21 @@ impl BytecodeVM {
                             // Re-throw the exception after finally
                             return Err(JsError::ThrownValue { guarded });
                         }
-                        PendingCompletion::Break { target, try_depth } => {
+                        PendingCompletion::Break {
+                            target,
+                            try_depth,
+                            scope_depth,
+                        } => {
                             // Continue with the break (recursively handles nested finally blocks)
-                            return self.execute_break(target, try_depth);
+                            return self.execute_break(interp, target, try_depth, scope_depth);
                         }
-                        PendingCompletion::Continue { target, try_depth } => {
+                        PendingCompletion::Continue {
+                            target,
+                            try_depth,
+                            scope_depth,
+                        } => {
                             // Continue with the continue (recursively handles nested finally blocks)
-                            return self.execute_continue(target, try_depth);
+                            return self.execute_continue(interp, target, try_depth, scope_depth);
                         }
                     }
                 }
@@ -5961,6 +5985,9 @@ impl BytecodeVM {
             // Pop the try handler (we're exiting this try block)
             self.try_stack.truncate(handler_idx);
 
+            // The finally block runs in the scope its try statement was entered in
+            self.unwind_scopes_to(interp, handler.scope_depth);
+
             // Jump to the finally block
             self.ip = handler.finally_ip;
 
@@ -5985,86 +6012,99 @@ impl BytecodeVM {
         }
     }
 
-    /// Execute a break, running any pending finally blocks first
-    // NOTE: review
-    fn execute_break(&mut self, target: usize, try_depth: u8) -> Result<OpResult, JsError> {
-        // Check if there's a try handler with a finally block between us and the target
+    /// Leave block scopes until only `depth` of this frame's scopes remain
+    /// (what the skipped PopScope instructions would have done).
+    fn unwind_scopes_to(&mut self, interp: &mut Interpreter, depth: usize) {
+        while self.saved_env_stack.len() > depth {
+            if let Some(saved_env) = self.saved_env_stack.pop() {
+                interp.pop_scope(saved_env);
+            }
+        }
+    }
+
+    /// Jump out of (break) or to the next iteration of (continue) a loop: run the
+    /// finally blocks of the try statements being left, innermost first, and leave
+    /// the block scopes between here and the target.
+    fn execute_loop_exit(
+        &mut self,
+        interp: &mut Interpreter,
+        target: usize,
+        try_depth: u8,
+        scope_depth: u8,
+        is_break: bool,
+    ) -> Result<OpResult, JsError> {
         let target_try_depth = try_depth as usize;
 
-        // Find the first try handler ABOVE target depth that has a finally block
-        if let Some(handler_idx) = self
+        // The innermost try handler above the target depth that has a finally block
+        let innermost_finally = self
             .try_stack
             .iter()
             .enumerate()
             .skip(target_try_depth)
-            .find(|(_, h)| h.finally_ip != 0)
+            .filter(|(_, h)| h.finally_ip != 0)
             .map(|(i, _)| i)
-        {
-            // There's a finally block that needs to run
+            .next_back();
+
+        if let Some(handler_idx) = innermost_finally {
             let handler = self
                 .try_stack
                 .get(handler_idx)
                 .cloned()
                 .ok_or_else(|| JsError::internal_error("Missing try handler"))?;
 
-            // Save the pending break
-            self.pending_completion = Some(PendingCompletion::Break { target, try_depth });
+            // Resume the jump when the finally block ends (FinallyEnd); an enclosing
+            // finally, if any, is found then.
+            self.pending_completion = Some(if is_break {
+                PendingCompletion::Break {
+                    target,
+                    try_depth,
+                    scope_depth,
+                }
+            } else {
+                PendingCompletion::Continue {
+                    target,
+                    try_depth,
+                    scope_depth,
+                }
+            });
 
-            // Pop the try handler (we're exiting this try block)
+            // We are leaving this try statement (and everything nested in it)
             self.try_stack.truncate(handler_idx);
 
-            // Jump to the finally block
-            self.ip = handler.finally_ip;
+            // The finally block runs in the scope its try statement was entered in
+            self.unwind_scopes_to(interp, handler.scope_depth);
 
+            self.ip = handler.finally_ip;
             return Ok(OpResult::Continue);
         }
 
-        // No finally block, do normal break (just jump)
-        // Also pop try handlers down to the target level
+        // No finally block left: pop try handlers and block scopes down to the target's
         self.try_stack.truncate(target_try_depth);
+        self.unwind_scopes_to(interp, scope_depth as usize);
         self.ip = target;
         Ok(OpResult::Continue)
     }
 
+    /// Execute a break, running any pending finally blocks first
+    fn execute_break(
+        &mut self,
+        interp: &mut Interpreter,
+        target: usize,
+        try_depth: u8,
+        scope_depth: u8,
+    ) -> Result<OpResult, JsError> {
+        self.execute_loop_exit(interp, target, try_depth, scope_depth, true)
+    }
+
     /// Execute a continue, running any pending finally blocks first
-    // NOTE: review
-    fn execute_continue(&mut self, target: usize, try_depth: u8) -> Result<OpResult, JsError> {
-        // Check if there's a try handler with a finally block between us and the target
-        let target_try_depth = try_depth as usize;
-
-        // Find the first try handler ABOVE target depth that has a finally block
-        if let Some(handler_idx) = self
-            .try_stack
-            .iter()
-            .enumerate()
-            .skip(target_try_depth)
-            .find(|(_, h)| h.finally_ip != 0)
-            .map(|(i, _)| i)
-        {
-            // There's a finally block that needs to run
-            let handler = self
-                .try_stack
-                .get(handler_idx)
-                .cloned()
-                .ok_or_else(|| JsError::internal_error("Missing try handler"))?;
-
-            // Save the pending continue
-            self.pending_completion = Some(PendingCompletion::Continue { target, try_depth });
-
-            // Pop the try handler (we're exiting this try block)
-            self.try_stack.truncate(handler_idx);
-
-            // Jump to the finally block
-            self.ip = handler.finally_ip;
-
-            return Ok(OpResult::Continue);
-        }
-
-        // No finally block, do normal continue (just jump)
-        // Also pop try handlers down to the target level
-        self.try_stack.truncate(target_try_depth);
-        self.ip = target;
-        Ok(OpResult::Continue)
+    fn execute_continue(
+        &mut self,
+        interp: &mut Interpreter,
+        target: usize,
+        try_depth: u8,
+        scope_depth: u8,
+    ) -> Result<OpResult, JsError> {
+        self.execute_loop_exit(interp, target, try_depth, scope_depth, false)
     }
 }
 
